@@ -41,11 +41,16 @@ func SeqProfileFor(name string, seed int64) SeqProfile {
 		p.Cols = []ColDesc{{"a", "int", []string{"add", "affine"}[r.Intn(2)], []string{"int", "int32", "int64", "uint64", "float64", "record"}[r.Intn(6)]},
 			{"s", "str", []string{"", "concat"}[r.Intn(2)], "string"}, {"b", "bool", "", "bool"}, {"e", "enum", "", "enum"}}
 		p.Idx = []IdxDesc{{"big", "a", "ge", 5}, {"small", "a", "lt", 3}, {"sa", "s", "eq", []int{0}}, {"on", "b", "true", 0}, {"e1", "e", "eq", "e1"}}
-		p.PSchema = 0.25
+		p.PSchema = 0.3
+		p.PIdxStep = 0.5
+		p.IdxFirst = r.Intn(2) == 0 // several indexes per column from the start: dropping one must leave the others attached
 		p.PRollback, p.PFailIns = 0.05, 0
 		p.Replica = true
 	case "c11": // offsets: many inserts and deletes over fragmented fill, failing inserts, rollbacks
-		p.Cols = []ColDesc{{"a", "int", "add", numRepr()}, {"t", "tok", "", "string"}}
+		p.Cols = []ColDesc{{"a", "int", "add", numRepr()}, {"t", "tok", "", "string"}, {"b", "bool", "", "bool"}}
+		// computed columns too must forget the previous occupant of an offset (the re-inserting row often leaves the column unset)
+		p.Idx = []IdxDesc{{"big", "a", "ge", 5}, {"on", "b", "true", 0}}
+		p.IdxFirst = true
 		p.PInsert, p.PDelete, p.PFailIns, p.PRollback = 0.5, 0.3, 0.15, 0.15
 		p.Prologue = []string{"", "block1", "sparse", "sparse", "three"}[r.Intn(5)]
 		p.Steps = 30
@@ -85,6 +90,13 @@ func SeqProfileFor(name string, seed int64) SeqProfile {
 		p.PInsert, p.PDelete = 0.4, 0.2
 		p.PSnap = 0.12
 		p.Steps = 30
+	case "c02k": // atomicity of key operations: rollbacks and failing callbacks around InsertKey / UpsertKey / QueryKey / DeleteKey, also through the one-call shortcuts
+		p.Cols = []ColDesc{{"k", "key", "", "key"}, {"a", "int", "add", numRepr()}, {"s", "str", "concat", "string"}}
+		p.Keyed = true
+		p.Idx = []IdxDesc{{"big", "a", "ge", 5}}
+		p.IdxFirst = true
+		p.PInsert, p.PDelete, p.PRollback, p.PFailIns, p.PObserve = 0.4, 0.2, 0.35, 0.2, 0.2
+		p.MaxBody = 3
 	case "c12": // primary keys over a small alphabet: several key operations per transaction, rollbacks, re-keying
 		p.Cols = []ColDesc{{"k", "key", "", "key"}, {"a", "int", "add", numRepr()}}
 		p.Keyed = true
@@ -93,6 +105,9 @@ func SeqProfileFor(name string, seed int64) SeqProfile {
 		p.Prologue = []string{"", "", "block1"}[r.Intn(3)]
 		p.Replica = r.Intn(2) == 0
 		p.MaxBody = 4
+		if !p.Replica {
+			p.PSnap = 0.08
+		} // the key table of a restored collection (what the snapshot of a key column carries after deletes)
 	case "c06": // replica convergence, sequential histories over all kinds
 		p.Cols = []ColDesc{{"a", "int", []string{"add", "affine"}[r.Intn(2)], numRepr()}, {"s", "str", []string{"", "concat"}[r.Intn(2)], "string"},
 			{"b", "bool", "", "bool"}, {"e", "enum", "", "enum"}, {"t", "tok", "", numRepr()}}
